@@ -34,6 +34,29 @@ def build():
     return os.path.join(TARGET, "debug", "replay")
 
 
+def build_findings():
+    r = subprocess.run(["cargo", "build", "--offline", "--bin", "findings"], cwd=os.path.join(VERIF, "native"), env=_env(),
+                       capture_output=True, text=True, timeout=900)
+    if r.returncode != 0:
+        m = re.search(r"^error.*", r.stderr, re.M | re.S)
+        raise InfraError("native build failed:\n" + (m.group(0) if m else r.stderr)[-3000:])
+    return os.path.join(TARGET, "debug", "findings")
+
+
+def run_finding(exe, fid, timeout=120):
+    """run the native demonstration of one recorded finding: returns (reproduced: bool or None, line)"""
+    try:
+        r = subprocess.run([exe, fid], capture_output=True, text=True, timeout=timeout, env=_env())
+    except subprocess.TimeoutExpired:
+        return None, "demonstration did not finish within %ds" % timeout
+    for line in r.stdout.splitlines():
+        if line.startswith("DEFECT " + fid):
+            return True, line
+        if line.startswith("OK " + fid):
+            return False, line
+    return None, (r.stdout + r.stderr)[-300:]
+
+
 def run(exe, name, vals, timeout=60):
     """returns (status, message): status in ok | violation | undecided"""
     try:
